@@ -938,3 +938,22 @@ package connect
 //@   ensures called("io.ReadCloser.Read", 1) ==> n == callres("io.ReadCloser.Read", 1, 0) && (callres("io.ReadCloser.Read", 1, 1) == nil ==> err == nil) && (coded(callres("io.ReadCloser.Read", 1, 1)) ==> err == callres("io.ReadCloser.Read", 1, 1))   // label: passes-the-body's-read-through
 //@   ensures called("io.ReadCloser.Read", 1) && Is(callres("io.ReadCloser.Read", 1, 1), context.Canceled) && !coded(callres("io.ReadCloser.Read", 1, 1)) ==> coded(err) && codeOf(err) == 1   // label: cancellation-reported-by-the-body-is-canceled
 //@   ensures called("io.ReadCloser.Read", 1) && !Is(callres("io.ReadCloser.Read", 1, 1), context.Canceled) && Is(callres("io.ReadCloser.Read", 1, 1), context.DeadlineExceeded) && !coded(callres("io.ReadCloser.Read", 1, 1)) ==> coded(err) && codeOf(err) == 4   // label: expiry-reported-by-the-body-is-deadline-exceeded
+
+// ---------------------------------------------------------------------------
+// connect.go: unary responses
+// ---------------------------------------------------------------------------
+
+//@ trusted func StreamingClientConn.Receive(c, msg) err
+//@   assigns everything
+//@ trusted func StreamingClientConn.ResponseHeader(c) res
+//@ trusted func StreamingClientConn.ResponseTrailer(c) res
+
+//@ func receiveUnaryResponse(conn) (res, err)
+//@   tags C04, C15, C02
+//@   requires conn != nil
+//@   assigns everything
+//@   ensures err == nil ==> res != nil && callres("StreamingClientConn.Receive", 1) == nil && called("StreamingClientConn.Receive", 2) && Is(callres("StreamingClientConn.Receive", 2), io.EOF)   // label: success-needs-one-message-then-the-end-of-stream   // tags: C04
+//@   ensures callres("StreamingClientConn.Receive", 1) != nil ==> err == callres("StreamingClientConn.Receive", 1)   // label: first-receive-error-is-returned-as-is
+//@   ensures called("StreamingClientConn.Receive", 2) && callres("StreamingClientConn.Receive", 2) == nil ==> err != nil && coded(err)   // label: a-second-message-is-an-error   // tags: C04
+//@   ensures called("StreamingClientConn.Receive", 2) && coded(callres("StreamingClientConn.Receive", 2)) && !Is(callres("StreamingClientConn.Receive", 2), io.EOF) ==> err == callres("StreamingClientConn.Receive", 2)   // label: code-of-the-trailing-error-is-preserved   // tags: C15, C02
+//@   ensures called("StreamingClientConn.Receive", 2) && callres("StreamingClientConn.Receive", 2) != nil && !Is(callres("StreamingClientConn.Receive", 2), io.EOF) ==> err != nil && coded(err)   // label: trailing-error-is-coded
